@@ -1093,7 +1093,10 @@ carquet_column_reader_t* carquet_reader_get_column(
  * columns, repetition levels indicate list boundaries.
  *
  * @param[in] reader Column reader
- * @param[out] values Output buffer for values (sized for physical type)
+ * @param[out] values Output buffer for values (sized for physical type). For nullable
+ *                    columns only the non-null values are stored, packed contiguously
+ *                    from values[0] (the layout carquet_writer_write_batch() takes);
+ *                    def_levels tells which rows they belong to.
  * @param[in] max_values Maximum number of values to read
  * @param[out] def_levels Definition levels buffer (may be NULL if not needed)
  * @param[out] rep_levels Repetition levels buffer (may be NULL if not needed)
